@@ -59,11 +59,28 @@ fn run_case(case: &Value, variation: u64, vbp: &Path, scratch: &Path) -> Vec<Pro
     for (k, v) in case["cfg"].as_object().unwrap() {
         let v = v.as_str().unwrap();
         if v == "?" {
-            cfg.insert(k.clone(), pick(&mut r, &domain(k)).to_string());
+            // variation 0: everything the path did not consult is valid and benign, so that a guard
+            // that wrongly lets the run continue ends in a successful phase; other variations: random
+            let benign = match k.as_str() {
+                "bpdir" | "t_os" | "t_arch" | "t_dname" | "t_dver" | "t_variant" => "set",
+                "desc" | "platform" | "plan" | "store" | "planpath" => "ok",
+                "exe" => "detect",
+                "argc" => "natural",
+                "detect" => "pass_plan",
+                "berror" => "none",
+                "launch" | "storeout" => "yes",
+                "bsbom" | "lsbom" => "s1",
+                _ => "no",
+            };
+            cfg.insert(k.clone(), if variation == 0 { benign.to_string() } else { pick(&mut r, &domain(k)).to_string() });
         } else {
             consulted.insert(k.clone());
             cfg.insert(k.clone(), v.to_string());
         }
+    }
+    if cfg["argc"] == "natural" {
+        let n = if cfg["exe"].to_lowercase().contains("build") { "3" } else { "2" };
+        cfg.insert("argc".into(), n.into());
     }
     let c = |k: &str| cfg[k].as_str();
     let out = &case["out"];
@@ -125,7 +142,7 @@ fn run_case(case: &Value, variation: u64, vbp: &Path, scratch: &Path) -> Vec<Pro
     let plan_entries: Vec<(String, Value)> = (0..r.usize(0..3)).map(|i| (format!("{} {i}", pick(&mut r, &STRINGS[1..4])), gen_table(&mut r, 2))).collect();
     let plan_path = if c("exe") == "detect" && c("planpath") == "unwritable" { t.join("no such dir").join("plan.toml") } else { t.join("plan.toml") };
     let plan_sentinel = "# sentinel written by the platform\n";
-    if c("exe") == "build" {
+    if c("exe").to_lowercase().contains("build") {
         match c("plan") {
             "ok" => {
                 let mut s = String::new();
@@ -177,7 +194,7 @@ fn run_case(case: &Value, variation: u64, vbp: &Path, scratch: &Path) -> Vec<Pro
     let script = json!({"detect": c("detect"), "berror": c("berror"), "launch": c("launch"), "storeout": c("storeout"), "bsbom": sbom_set(c("bsbom")), "lsbom": sbom_set(c("lsbom"))});
     fs::write(t.join("script.json"), script.to_string()).unwrap();
     let exe_name = c("exe");
-    let natural: Vec<PathBuf> = if c("exe") == "build" { vec![layers.clone(), platform.clone(), plan_path.clone()] } else { vec![platform.clone(), plan_path.clone()] };
+    let natural: Vec<PathBuf> = if c("exe").to_lowercase().contains("build") { vec![layers.clone(), platform.clone(), plan_path.clone()] } else { vec![platform.clone(), plan_path.clone()] };
     let argc: usize = c("argc").parse().unwrap();
     let mut argv: Vec<PathBuf> = natural.iter().take(argc).cloned().collect();
     while argv.len() < argc {
